@@ -83,6 +83,16 @@ def rep_special_factors(rep):
         out += [(2147483647, 3), (3, 2147483647), (65521, 65537)]
     if b == 64:
         out += [(2147483647, 3), (4294967291, 4294967279), (3037000493, 7), ((1 << 61) - 1, 3), (3, (1 << 61) - 1)]
+    # small factors > 1 whose numerator divides a boundary of T or the first value beyond it (max, max+1, |min|, |min|+1): some x with D | x then has
+    # x*N/D EXACTLY on the boundary / one step beyond it, which is where an off-by-one in the overflow bounds of the checkers shows
+    def small_prime_factor(v):
+        for q in (3, 5, 7, 11, 13, 17, 19, 23, 29, 31, 37, 41, 43, 47):
+            if v % q == 0: return q
+        return 2 if v % 2 == 0 else None
+    bounds = [M, M + 1] + ([-tmin(rep), -tmin(rep) + 1] if REPS[rep]['signed'] else [])
+    for v in bounds:
+        q = small_prime_factor(v)
+        if q: out.append((q, 2) if q % 2 else (4, 3))
     res = []
     for n, d in out:
         g = gcd(n, d)
